@@ -9,6 +9,7 @@ CONSTANTS
   Feat = {@FEAT@}
   Dev = {@DEV@}
   LateConn = {@LATE@}
+  TimerEp = "@TIMEREP@"
 VIEW view
 INVARIANTS TypeOK PrefixInv NoStall EofInv ClosedStreamInv CountInv TimerOnlyWhenIdle NonceInv @EXTRAINV@
 CHECK_DEADLOCK FALSE
